@@ -23,3 +23,4 @@ open BsVerif.Dqe
 #print axioms C07_precedence_example
 #print axioms C07_parse_slice
 #print axioms C07_precedence_deref_field
+#print axioms C07_display_parse_counterexample
